@@ -340,6 +340,9 @@ func (l *Ledger) formatBlock(txList []*pb.Transaction,
 func (l *Ledger) saveBlock(block *pb.InternalBlock, batchWrite kvdb.Batch) error {
 	blockBuf, pbErr := proto.Marshal(block)
 	l.blkHeaderCache.Add(string(block.Blockid), block)
+	// a header that is saved again (trunk switch, new successor) must not be served from the
+	// full-block cache, which may hold an older copy of the block
+	l.blockCache.Del(string(block.Blockid))
 	if pbErr != nil {
 		l.xlog.Warn("marshal block fail", "pbErr", pbErr)
 		return pbErr
